@@ -28,7 +28,8 @@ func MergeDoc(t *rapid.T) *YDoc {
 		case 0:
 			return &YN{K: YScalar, T: "int", S: fmt.Sprint(rapid.IntRange(0, 99).Draw(t, label+"i"))}
 		case 1:
-			return &YN{K: YScalar, T: "str", S: rapid.SampledFrom([]string{"x", "w", "zed", "v w"}).Draw(t, label+"s")}
+			// (now and then a value that reads like one of the keys)
+			return &YN{K: YScalar, T: "str", S: rapid.SampledFrom([]string{"x", "w", "zed", "v w", "a", "b", "c", "d"}).Draw(t, label+"s")}
 		case 2:
 			return &YN{K: YScalar, T: "bool", S: rapid.SampledFrom([]string{"true", "false"}).Draw(t, label+"b")}
 		default:
